@@ -5,6 +5,7 @@ package pfcpiface
 
 import (
 	"errors"
+	"unicode/utf8"
 
 	"github.com/omec-project/upf-epc/logger"
 	"github.com/wmnsk/go-pfcp/ie"
@@ -15,6 +16,7 @@ var errFlowDescAbsent = errors.New("flow description not present")
 var errDatapathDown = errors.New("datapath down")
 var errReqRejected = errors.New("request rejected")
 var errMandatoryIEMissing = errors.New("mandatory IE missing")
+var errNodeIDNotText = errors.New("node ID is not valid UTF-8 text")
 
 func (pConn *PFCPConn) sendAssociationRequest() {
 	// Build request message
@@ -145,6 +147,11 @@ func (pConn *PFCPConn) handleAssociationSetupRequest(msg message.Message) (messa
 		return nil, errUnmarshal(err)
 	}
 
+	// the node ID labels the metrics of this association: an FQDN node ID may carry any bytes
+	if !utf8.ValidString(nodeID) {
+		return nil, errUnmarshal(errNodeIDNotText)
+	}
+
 	ts, err := asreq.RecoveryTimeStamp.RecoveryTimeStamp()
 	if err != nil {
 		return nil, errUnmarshal(err)
@@ -205,6 +212,10 @@ func (pConn *PFCPConn) handleAssociationSetupResponse(msg message.Message) error
 	nodeID, err := asres.NodeID.NodeID()
 	if err != nil {
 		return errUnmarshal(err)
+	}
+
+	if !utf8.ValidString(nodeID) {
+		return errUnmarshal(errNodeIDNotText)
 	}
 
 	ts, err := asres.RecoveryTimeStamp.RecoveryTimeStamp()
